@@ -1,4 +1,8 @@
 import PoxModel.Proofs.PacketChain
+import PoxModel.Proofs.Lldp
+import PoxModel.Proofs.Gre
+import PoxModel.Proofs.Igmp3
+import PoxModel.Proofs.PacketExtChain
 /-!
 # C14 — packet headers survive build → bytes → parse with valid lengths and checksums
 
@@ -20,8 +24,22 @@ Proved for all inputs (no bound on payloads other than the 16-bit length fields 
   errors, IPv4 options, TCP options): `parse (pack p)` is `p` with the computed attributes filled in, and
   `pack (parse (pack p)) = pack p`.
 
-DHCP, DNS, IPv6 (+extension headers), ICMPv6, MPLS, GRE, VXLAN, IGMP, RIP, EAPOL/EAP, LLDP, LLC are not
-behaviour-modelled: no theorem here speaks about them (differential testing only, see harness/c14.py).
+Phase 2 (`Model/PacketExt.lean`; the extended chain parser `xparse` runs the original per-class parsers unchanged):
+* `llc_roundtrip` (LLC with one/two control octets, with/without SNAP), `mpls_roundtrip`, `lldp_roundtrip` (whole PDU:
+  chassis/port/TTL + optional TLVs + END, every TLV length field exact), `eapol_roundtrip`, `eap_roundtrip`
+  (success/failure), `vxlan_roundtrip`, `rip_roundtrip`;
+* `ipv6_hdr` (40 bytes, payload-length field, all fields back), `udp6_hdr`, `tcp6_hdr`, `icmp6_hdr` (checksums over the
+  IPv6 pseudo header = RFC 1071), `icmp6_roundtrip` (the receiver-side verification in `icmpv6.parse` accepts what
+  `hdr` emitted), `echo6_roundtrip`;
+* `gre_hdr` / `gre_roundtrip` (flags, key, sequence number; checksum = RFC 1071 and verifies);
+* `igmp_v2` / `igmp_v3` (checksum = RFC 1071 and verifies, `igmp.parse` accepts it, group records come back).
+
+* `xparse_eth_dispatch`, `xparse_ipv4_dispatch`, `xparse_udp_dispatch` — the extended chain parser (original parsers +
+  probe/lift glue) demultiplexes by EtherType / protocol / UDP port exactly like the code; `lldp_frame_roundtrip` — the
+  whole Ethernet+LLDP probe frame: pack, parse, re-pack.
+
+Still not behaviour-modelled (differential testing only, see harness/c14.py): DHCP, DNS (open findings D45/D46), IPv6
+extension headers (D48), ICMPv6 error/NDP bodies (D47), EAP request/response bodies (D49), GRE routing, MPTCP options.
 -/
 namespace Pox.C14
 open Pox Pox.Layout Pox.Checksum Pox.Packet
@@ -309,5 +327,242 @@ example : kindOf exChain2 = some .eth ∧ Good none exChain2 := by
     ⟨by constructor <;> decide, by simp [IpCompat, exIp], ?_, by simp [plen, exIp, h8]⟩⟩
   exact ⟨⟨_, rfl, by constructor <;> decide⟩, by constructor <;> decide, exTcp_opts.1, by rw [h8]; decide, trivial,
     by simp [plen, h8]⟩
+
+/-! # Phase 2: the protocol modules of `Model/PacketExt.lean` -/
+
+/-! ## LLC / SNAP (llc.py) -/
+
+def exLlc : Llc := ⟨8, 0xaa, 0xaa, 3, some [0, 0, 0], 0x0800⟩
+theorem exLlc_fits : exLlc.Fits := by
+  constructor <;> simp [exLlc, Llc.two]
+
+/-- `llc.hdr` / `llc.parse`: DSAP, SSAP, a one- or two-octet control field (decided by its low bits), the optional SNAP
+OUI + EtherType; the header is `length` bytes; a zero OUI hands the payload to the EtherType's parser -/
+theorem llc_roundtrip (next : XNext) (h : Llc) (payload : Bytes) (hf : h.Fits) :
+    ∃ bs, llcHdr h = .ok bs ∧ bs.length = h.length ∧ llcParse next (bs ++ payload) = .llc h (llcNext next h payload) :=
+  ⟨llcBytes h, llcHdr_ok h hf, llcBytes_length h hf, llc_parse next h payload hf⟩
+
+example : (⟨4, 0x42, 0x42, 0x1234 * 2, none, 0xffff⟩ : Llc).Fits := by constructor <;> simp [Llc.two]
+
+/-! ## MPLS (mpls.py) -/
+
+theorem mpls_roundtrip (next : XNext) (h : Mpls) (payload : Bytes) (hf : h.Fits) :
+    ∃ bs, mplsHdr h = .ok bs ∧ bs.length = 4 ∧ mplsParse next (bs ++ payload) = .mpls h (mplsNext next h payload) :=
+  ⟨mplsBytes h, mplsHdr_ok h hf, by simp [mplsBytes], mpls_parse next h payload hf⟩
+
+example : (⟨0xfffff, 7, 1, 255⟩ : Mpls).Fits := by constructor <;> decide
+
+/-! ## LLDP (lldp.py) -/
+
+/-- the PDU the discovery component sends on every probe, and any other well-formed one -/
+theorem lldp_roundtrip (c p t : Tlv) (mid : List Tlv) (hc : c.OK) (hp : p.OK) (ht : t.OK) (tc : tlvType c = 1)
+    (tp : tlvType p = 2) (tt : tlvType t = 3) (hmid : ∀ q ∈ mid, q.OK ∧ tlvType q ≠ 0) :
+    lldpHdr (c :: p :: t :: (mid ++ [.end_])) = .ok (lldpBytes (c :: p :: t :: (mid ++ [.end_]))) ∧
+    lldpParse (lldpBytes (c :: p :: t :: (mid ++ [.end_]))) = .lldp (c :: p :: t :: (mid ++ [.end_])) :=
+  lldp_parse c p t mid hc hp ht tc tp tt hmid
+
+/-- every TLV is `type << 9 | len(info)` followed by exactly `len(info)` bytes -/
+theorem lldp_tlv_length (t : Tlv) (h : t.OK) :
+    tlvPack t = .ok (tlvBytes t) ∧ beDec ((tlvBytes t).take 2) % 512 + 2 = (tlvBytes t).length := by
+  refine ⟨tlvPack_ok t h, ?_⟩
+  have hl := tlvData_len t h
+  have ht := tlvType_lt t h
+  have : (tlvBytes t).take 2 = be16 (tlvType t * 512 + (tlvDataBytes t).length) := take_left _ _ 2 (by simp)
+  rw [this, be16, beDec_beEnc 2 _ (by simpa using (by omega : tlvType t * 512 + (tlvDataBytes t).length < 65536)),
+    tlvBytes_length]
+  omega
+
+example : (Tlv.chassis 4 [0, 1, 2, 3, 4, 5]).OK ∧ (Tlv.port 2 [0x31]).OK ∧ (Tlv.ttl 120).OK ∧
+    (∀ q ∈ [Tlv.payload 6 [0x64, 0x70], Tlv.mgmt 1 [10, 0, 0, 1] 2 3 [], Tlv.org [0, 0x26, 0xe1] 0 [1]],
+      q.OK ∧ tlvType q ≠ 0) := by
+  refine ⟨by simp [Tlv.OK], by simp [Tlv.OK], by simp [Tlv.OK], ?_⟩
+  intro q hq
+  simp only [List.mem_cons, List.not_mem_nil, or_false] at hq
+  rcases hq with rfl | rfl | rfl <;> simp [Tlv.OK, tlvType]
+
+/-! ## EAPOL / EAP (eapol.py, eap.py) -/
+
+theorem eapol_roundtrip (next : XNext) (h : Eapol) (payload : Bytes) (hf : h.Fits) :
+    ∃ bs, eapolHdr h = .ok bs ∧
+      eapolParse next (bs ++ payload) = .eapol h (if h.type = 0 then next none .eap payload else .nil) :=
+  ⟨eapolBytes h, eapolHdr_ok h hf, eapol_parse next h payload hf⟩
+
+theorem eap_roundtrip (h : Eap) (hf : h.Fits) : ∃ bs, eapHdr h = .ok bs ∧ eapParse bs = .eap h .nil :=
+  ⟨eapBytes h, eapHdr_ok h hf, eap_parse h hf⟩
+
+example : (⟨1, 0, 4⟩ : Eapol).Fits ∧ (⟨3, 7, 4⟩ : Eap).Fits :=
+  ⟨by constructor <;> decide, by constructor <;> decide⟩
+
+/-! ## IPv6 fixed header and the upper-layer checksums over its pseudo header (ipv6.py, udp.py, tcp.py, icmpv6.py) -/
+
+def exIp6 : IPv6 := ⟨6, 0xb8, 0x12345, 0, 17, 64, List.replicate 15 0 ++ [1], 0xff :: 2 :: List.replicate 13 0 ++ [2]⟩
+theorem exIp6_fits : exIp6.Fits := by constructor <;> decide
+
+/-- `ipv6.hdr(payload)`: 40 bytes, the payload-length field is `|payload|`; `ipv6(raw = hdr + payload)` returns version,
+traffic class, flow label, next header, hop limit, both addresses, and the exact payload slice -/
+theorem ipv6_hdr (next : XNext) (h : IPv6) (payload : Bytes) (hf : h.Fits) (hn : payload.length < 65536) :
+    ∃ h' bs, ipv6Hdr h payload.length = .ok (h', bs) ∧ bs.length = 40 ∧ beDec (sl bs 4 6) = payload.length ∧
+      h' = { h with plen := payload.length } ∧
+      ipv6Parse next (bs ++ payload) = .ipv6 h' (ipv6Next next h payload) :=
+  ⟨_, _, ipv6Hdr_ok h _ hf hn, ipv6Bytes_length h _ hf, ipv6_len_field h _ hn, rfl, ipv6_parse next h payload hf hn⟩
+
+/-- UDP over IPv6: length field and RFC 1071 checksum over the 40-byte pseudo header (RFC 8200 §8.1), 0 sent as 0xffff -/
+theorem udp6_hdr (src dst : Bytes) (nh : Nat) (h : Udp) (payload : Bytes) (hs : src.length = 16) (hd : dst.length = 16)
+    (hnh : nh < 256) (hf : h.Fits) (hn : payload.length + 8 < 65536) :
+    ∃ h' bs, udpHdr6 src dst nh h payload = .ok (h', bs) ∧ bs.length = 8 ∧ h'.len = payload.length + 8 ∧
+      beDec (sl bs 6 8) = udp6CsumSpec src dst nh h payload ∧ h'.csum = udp6CsumSpec src dst nh h payload := by
+  refine ⟨_, _, udpHdr6_ok src dst nh h payload hs hd hnh hf hn, by simp [udpPre_length], rfl, ?_, rfl⟩
+  have : sl (udpPre h payload.length ++ be16 (udp6CsumSpec src dst nh h payload)) 6 8
+      = be16 (udp6CsumSpec src dst nh h payload) := sl_tail _ _ 6 8 (by rw [udpPre_length]) (by rw [udpPre_length, be16_length])
+  have hlt : udp6CsumSpec src dst nh h payload < 256 ^ 2 := udp6CsumSpec_lt src dst nh h payload
+  rw [this, be16, beDec_beEnc 2 _ hlt]
+
+/-- TCP over IPv6 -/
+theorem tcp6_hdr (src dst : Bytes) (nh : Nat) (h : Tcp) (op payload : Bytes) (hs : src.length = 16)
+    (hd : dst.length = 16) (hnh : nh < 256) (hf : h.Fits) (hop : tcpOptsPadded h.opts = .ok op) (hol : op.length ≤ 40)
+    (hn : 20 + op.length + payload.length ≤ 131000) :
+    ∃ h' bs, tcpHdr6 src dst nh h payload = .ok (h', bs) ∧ bs.length = 20 + op.length ∧ h'.off * 4 = bs.length ∧
+      h'.csum = tcp6CsumSpec src dst nh h op payload ∧ beDec (sl bs 16 18) = tcp6CsumSpec src dst nh h op payload := by
+  have h4 := tcpOptsPadded_mod4 h.opts op hop
+  refine ⟨_, _, tcpHdr6_ok src dst nh h op payload hs hd hnh hf hop hol hn, by simp [tcpPre_length]; omega, ?_, rfl, ?_⟩
+  · simp [tcpPre_length]; omega
+  · have : sl (tcpPre h ((20 + op.length) / 4) ++ (be16 (tcp6CsumSpec src dst nh h op payload) ++ (be16 h.urg ++ op))) 16 18
+        = be16 (tcp6CsumSpec src dst nh h op payload) :=
+      sl_mid _ _ _ 16 18 (by rw [tcpPre_length]) (by rw [tcpPre_length, be16_length])
+    have hlt : tcp6CsumSpec src dst nh h op payload < 256 ^ 2 := rfc1071_lt _
+    rw [this, be16, beDec_beEnc 2 _ hlt]
+
+/-- ICMPv6: checksum over the IPv6 pseudo header (next header 58) and the message -/
+theorem icmp6_hdr (src dst : Bytes) (h : Icmp) (payload : Bytes) (hs : src.length = 16) (hd : dst.length = 16)
+    (hf : h.Fits) (hn : payload.length + 4 ≤ 131000) :
+    ∃ h' bs, icmp6Hdr src dst h payload = .ok (h', bs) ∧ bs.length = 4 ∧
+      h'.csum = rfc1071 (pseudo6 src dst (payload.length + 4) 58 ++ (beEnc 1 h.type ++ beEnc 1 h.code ++ 0 :: 0 :: payload)) :=
+  ⟨_, _, icmp6Hdr_ok src dst h payload hs hd hf hn, by simp [icmp6Bytes, icmpPre], rfl⟩
+
+/-- `icmpv6.parse` verifies the checksum against the enclosing IPv6 header: it accepts exactly what `hdr` emitted -/
+theorem icmp6_roundtrip (next : XNext) (src dst : Bytes) (nh : Nat) (h : Icmp) (payload : Bytes) (hs : src.length = 16)
+    (hd : dst.length = 16) (hf : h.Fits) (hp : icmp6Plain h) (hn : payload.length + 4 ≤ 131000) :
+    ∃ h' bs, icmp6Hdr src dst h payload = .ok (h', bs) ∧
+      icmp6Parse (some (.v6 src dst nh)) next (bs ++ payload)
+        = .icmp6 h' (if h.type = 128 ∨ h.type = 129 then next none .echo6 payload else .raw payload) :=
+  ⟨_, _, icmp6Hdr_ok src dst h payload hs hd hf hn, icmp6_parse next src dst nh h payload hs hd hf hp hn⟩
+
+theorem echo6_roundtrip (h : Echo) (payload : Bytes) (hf : h.Fits) :
+    ∃ bs, echoHdr h = .ok bs ∧ echo6Parse (bs ++ payload) = .echo6 h (.raw payload) :=
+  ⟨echoBytes h, echoHdr_ok h hf, echo6_parse h payload hf⟩
+
+example : exIp6.Fits ∧ exIp6.src.length = 16 ∧ exIp6.dst.length = 16 ∧ icmp6Plain ⟨128, 0, 0⟩ :=
+  ⟨exIp6_fits, by decide, by decide, by unfold icmp6Plain; decide⟩
+
+/-! ## GRE (gre.py, no routing) -/
+
+def exGre : Gre := ⟨0x0800, 0, false, 0, 0, some 0xdeadbeef, some 7, .compute⟩
+theorem exGre_fits : exGre.Fits := by
+  constructor <;> simp [exGre]
+
+/-- `gre.hdr` with `csum = True`: the checksum word is RFC 1071 over the header with that word zeroed plus the payload
+packet, and the packet verifies; flags/key/sequence number are laid out as RFC 2890 says -/
+theorem gre_hdr (h : Gre) (payload : Bytes) (hf : h.Fits) (hc : h.csum = .compute) (hn : payload.length + 16 ≤ 131072) :
+    ∃ h' bs, greHdr h payload = .ok (h', bs) ∧ h'.csum = .val (greCsumSpec h payload) ∧
+      beDec (sl bs 4 6) = greCsumSpec h payload ∧ rfc1071 (bs ++ payload) = 0 := by
+  refine ⟨_, _, greHdr_ok h payload hf hn, by simp [hc], ?_, gre_verifies h payload hc⟩
+  have : sl (greBytes h payload) 4 6 = be16 (greCsumSpec h payload) := by
+    unfold greBytes; simp only [hc]
+    exact sl_mid _ _ _ 4 6 (by simp) (by simp)
+  have hlt : greCsumSpec h payload < 256 ^ 2 := rfc1071_lt _
+  rw [this, be16, beDec_beEnc 2 _ hlt]
+
+theorem gre_roundtrip (next : XNext) (h : Gre) (payload : Bytes) (hf : h.Fits) (hn : payload.length + 16 ≤ 131072) :
+    ∃ h' bs, greHdr h payload = .ok (h', bs) ∧ greParse next (bs ++ payload) = .gre h' (greNext next h payload) :=
+  ⟨_, _, greHdr_ok h payload hf hn, gre_parse next h payload hf⟩
+
+/-! ## VXLAN (vxlan.py) -/
+
+theorem vxlan_roundtrip (next : XNext) (h : Vxlan) (payload : Bytes) (hf : h.Fits) :
+    ∃ bs, vxlanHdr h = .ok bs ∧ bs.length = 8 ∧
+      vxlanParse next (bs ++ payload) = .vxlan h (next none (.core .eth) payload) :=
+  ⟨vxlanBytes h, vxlanHdr_ok h hf, vxlanBytes_length h, vxlan_parse next h payload hf⟩
+
+example : (⟨some 0xabcdef⟩ : Vxlan).Fits ∧ (⟨none⟩ : Vxlan).Fits := by
+  constructor <;> intro v hv <;> simp at hv
+  omega
+
+/-! ## IGMP (igmp.py) -/
+
+/-- v1/v2 messages: the checksum is RFC 1071 of the message and verifies; `igmp.parse` (which re-computes and compares
+it) accepts the message and returns type, response time, group address and trailing bytes -/
+theorem igmp_v2 (h : Igmp) (a : Nat) (hf : h.Fits2 a) :
+    ∃ h' bs, igmpHdr h = .ok (h', bs) ∧ h'.csum = igmp2CsumSpec h a ∧ rfc1071 bs = 0 ∧ igmpParse bs = .igmp h' :=
+  ⟨_, _, igmpHdr_v2_ok h a hf, rfl, igmp2_verifies h a, igmp_v2_parse h a hf⟩
+
+/-- v3 membership reports with any list of group records (record type, group, source list, auxiliary data) -/
+theorem igmp_v3 (h : Igmp) (hf : h.Fits3) :
+    ∃ h' bs, igmpHdr h = .ok (h', bs) ∧ h'.csum = igmp3CsumSpec h ∧ rfc1071 bs = 0 ∧ igmpParse bs = .igmp h' :=
+  ⟨_, _, igmpHdr_v3_ok h hf, rfl, igmp3_verifies h, igmp_v3_parse h hf⟩
+
+example : (⟨0x16, 0, 0, some 0xe0000116, [], []⟩ : Igmp).Fits2 0xe0000116 := by constructor <;> simp
+example : (⟨0x22, 0, 0, none, [⟨1, 0xe0000116, [0x0a000001, 0x0a000002], []⟩], []⟩ : Igmp).Fits3 := by
+  refine ⟨rfl, rfl, rfl, ?_, by decide, by decide⟩
+  intro g hg
+  simp only [List.mem_cons, List.not_mem_nil, or_false] at hg
+  subst hg
+  constructor <;> simp
+
+/-! ## RIP (rip.py) -/
+
+/-- a RIP message with n ≥ 1 entries is 4 + 20·n bytes and every entry (family, tag, address, mask, next hop, signed
+metric) comes back -/
+theorem rip_roundtrip (h : Rip) (hf : h.Fits) :
+    ∃ bs, ripHdr h = .ok bs ∧ bs.length = 4 + 20 * h.entries.length ∧ ripParse bs = .rip h :=
+  ⟨ripBytes h, ripHdr_ok h hf, (rip_parse h hf).1, (rip_parse h hf).2⟩
+
+example : (⟨2, 2, [⟨2, 0, 0x0a000000, 0xff000000, 0, 16⟩]⟩ : Rip).Fits := by
+  refine ⟨by decide, by decide, ?_, by simp⟩
+  intro e he
+  simp only [List.mem_cons, List.not_mem_nil, or_false] at he
+  subst he
+  constructor <;> decide
+
+/-! ## the extended chain parser: hand-over from the original classes, and the LLDP probe frame -/
+
+/-- `ethernet(raw)` over the extended model: same header, payload handed to VLAN / ARP / IPv4 / IPv6 / LLDP / EAPOL / MPLS /
+LLC (802.3 length) or kept opaque, by EtherType -/
+theorem xparse_eth_dispatch (f : Nat) (ctx : Option XCtx) (h : Eth) (payload : Bytes) (hf : h.Fits) :
+    xparse (f + 1) ctx (.core .eth) (ethBytes h ++ payload) = .eth h (xEthNext (xparse f) h.type payload) :=
+  xparse_eth f ctx h payload hf
+
+/-- `ipv4(raw)` over the extended model: UDP / TCP / ICMP / IGMP / GRE by protocol number, fragments and unknown
+protocols opaque, an unparsed child replaced by the bytes -/
+theorem xparse_ipv4_dispatch (f : Nat) (ctx : Option XCtx) (h : IPv4) (payload : Bytes) (hf : h.Fits)
+    (hn : h.hl * 4 + payload.length < 65536) :
+    xparse (f + 1) ctx (.core .ipv4) (ipv4Bytes h payload.length ++ payload)
+      = .ipv4 (ipv4Upd h payload.length) (xIp4Next (xparse f) h.frag h.proto payload) :=
+  xparse_ipv4 f ctx h payload hf hn
+
+/-- `udp(raw)` over the extended model: ports 520 → RIP, 4789 → VXLAN (67/68/53/5353 → DHCP/DNS, outside the model) -/
+theorem xparse_udp_dispatch (f : Nat) (ctx : Option XCtx) (c : IPCtx) (h : Udp) (payload : Bytes) (hf : h.Fits)
+    (hn : payload.length + 8 < 65536) :
+    xparse (f + 1) ctx (.core .udp) (udpBytes c h payload ++ payload)
+      = .udp (udpUpd c h payload)
+          (match udpSel h with
+           | some tag => contOf (xparse f) tag payload
+           | none => .raw payload) :=
+  xparse_udp f ctx c h payload hf hn
+
+example : udpSel ⟨520, 520, 0, 0⟩ = some "rip" ∧ udpSel ⟨50000, 4789, 0, 0⟩ = some "vxlan" ∧ udpSel exUdp = none := by decide
+
+/-- the LLDP probe frame as a whole (what `discovery` sends on every port and parses on every packet-in) -/
+theorem lldp_frame_roundtrip (e : Eth) (c p t : Tlv) (mid : List Tlv) (he : e.Fits) (hty : e.type = 0x88cc) (hc : c.OK)
+    (hp : p.OK) (ht : t.OK) (tc : tlvType c = 1) (tp : tlvType p = 2) (tt : tlvType t = 3)
+    (hmid : ∀ q ∈ mid, q.OK ∧ tlvType q ≠ 0) :
+    xpack none (.eth e (.lldp (c :: p :: t :: (mid ++ [.end_]))))
+        = .ok (ethBytes e ++ lldpBytes (c :: p :: t :: (mid ++ [.end_]))) ∧
+    xparseTop (.core .eth) (ethBytes e ++ lldpBytes (c :: p :: t :: (mid ++ [.end_])))
+        = .eth e (.lldp (c :: p :: t :: (mid ++ [.end_]))) ∧
+    xpack none (xparseTop (.core .eth) (ethBytes e ++ lldpBytes (c :: p :: t :: (mid ++ [.end_]))))
+        = .ok (ethBytes e ++ lldpBytes (c :: p :: t :: (mid ++ [.end_]))) :=
+  Pox.Packet.lldp_frame_roundtrip e c p t mid he hty hc hp ht tc tp tt hmid
+
+example : ({ exEth with type := 0x88cc } : Eth).Fits := by constructor <;> decide
 
 end Pox.C14
